@@ -118,6 +118,7 @@ fn describe(scn: &Scenario, devs: &Devs, res: &ExecResult) -> serde_json::Value 
                     (p.tag >> 8) & 0xff,
                     (p.tag >> 16) & 0xff
                 ),
+                Some(p) if p.kind == crate::chooser::PK_LINK => format!("point {i} (round {}, link group {} down)", p.round, p.tag),
                 Some(p) => format!("point {i} (round {}, tick of session {}) alt {a}", p.round, p.tag),
                 None => format!("point {i} alt {a}"),
             }
